@@ -180,10 +180,20 @@ func runC09(out *vlib.Out, sc *c09Scenario, prefixSched []int) c09Result {
 	rd.registerForDetector = func(d *DecoyRegistration) { addEv("new " + keyOf(d)) }
 	rd.updateInDetector = func(d *DecoyRegistration) { addEv("upd " + keyOf(d)) }
 
-	// ---- serial set-up through the same entry points, virtual times fixed afterwards
-	vt := map[*DecoyTimeout]int64{}
+	// ---- serial set-up through the same entry points; the virtual clock ages the records by relative
+	// shifts of their real timestamps, so whatever the code writes into them is preserved
+	vnow := int64(0)
+	advance := func(now int64) {
+		if d := now - vnow; d > 0 {
+			for _, to := range rd.decoysTimeouts {
+				to.registrationTime = to.registrationTime.Add(-time.Duration(d) * time.Second)
+			}
+			vnow = now
+		}
+	}
 	var mpre []string
 	for _, op := range sc.pre {
+		advance(op.now)
 		d := c09Reg(op.ph, op.sec, op.tr, true, "1.2.3.4:443")
 		id := vlib.Hex([]byte(rd.transports[d.Transport].GetIdentifier(d)))
 		phs := c08Phantoms[op.ph]
@@ -198,17 +208,9 @@ func runC09(out *vlib.Out, sc *c09Scenario, prefixSched []int) c09Result {
 			rd.markActive(d)
 			mpre = append(mpre, fmt.Sprintf("m,%s,%s,%d", phs, id, int(d.Transport)))
 		}
-		for _, to := range rd.decoysTimeouts {
-			if _, ok := vt[to]; !ok {
-				vt[to] = op.now
-			}
-		}
 	}
 	events = nil
-	real := time.Now()
-	for _, to := range rd.decoysTimeouts {
-		to.registrationTime = real.Add(-time.Duration(sc.now-vt[to]) * time.Second)
-	}
+	advance(sc.now)
 
 	// ---- ground truth for the oracles
 	validated := map[string]bool{} // keys whose validation step has run (or valid from set-up)
@@ -373,10 +375,7 @@ func runC09(out *vlib.Out, sc *c09Scenario, prefixSched []int) c09Result {
 		}
 	}
 	for _, to := range rd.decoysTimeouts {
-		v, ok := vt[to]
-		if !ok {
-			v = sc.now
-		}
+		v := vnow - int64((time.Since(to.registrationTime)+500*time.Millisecond)/time.Second)
 		t = append(t, fmt.Sprintf("%s,%s,%d,%s", to.decoy, vlib.Hex([]byte(to.identifier)), v, vlib.B(to.status == regStatusUsed)))
 	}
 	sort.Strings(d)
